@@ -149,6 +149,8 @@ func seqRow(t *mTable, k int, big bool) []any {
 		case c.Type == "varchar":
 			if big {
 				out[i] = fmt.Sprintf("B%d", k) // padded below
+			} else if k%4 == 3 {
+				out[i] = fmt.Sprintf("r%dé日🙂", k) // (bytes and characters differ)
 			} else {
 				out[i] = fmt.Sprintf("r%d", k)
 			}
